@@ -13,6 +13,7 @@ C07.d unchanged-tree shortcut: a tree is reported unchanged only if its freshly 
 import re
 from rules.common import *
 
+TECHNIQUE = ("static analysis over rustc MIR: typed-identity rule on the written-blob set, must-pass negative index lookup before every Packer::add (same id, same blob type), all-origins provenance of ids (hash of the bytes sent), carried-bytes rule of the chunker, parent-match predicate evaluated under 'field differs'")
 LEVEL = "other"
 EXPLANATION = (
     "Guard, provenance and typed-key rules over the archiver, tree modifier and merge code: each blob is added to a "
